@@ -581,7 +581,14 @@ class Interp:
                 st.effects.append(("yield", st.freeze(v)))
             return U("sent value")
         if isinstance(e, ast.YieldFrom):
-            st.effects.append(("yield-from", st.freeze(self.eval(e.value, st))))
+            src = self.eval(e.value, st)
+            seq_y = self.iterate(src, st) if st.pending is None else None
+            if seq_y is not None and getattr(self, "yield_handler", None) is None:
+                # delegation to a sequence whose elements are known: one yield per element, in order
+                for el in seq_y:
+                    st.effects.append(("yield", st.freeze(el)))
+                return K(None)
+            st.effects.append(("yield-from", st.freeze(src)))
             return U("yield from")
         if isinstance(e, ast.Dict):
             pairs: List[Tuple[V, V]] = []
